@@ -138,6 +138,11 @@ func genBatch(r *rand.Rand, mode string) (BatchCfg, *BatchScript) {
 		c.N, c.W, c.Fb, c.StopMode, c.Sched, c.Via, c.Shape = 1, 0, false, r.Intn(2) == 0, "cancelfeed", "builder", "results"
 		c.Cancel, c.CtxKind = true, []string{"cancel", "cause", "deadline"}[r.Intn(3)]
 		pFail = 0
+	case "innerflow": // every exec call runs a small flow of its own first; several of them at the same time
+		c.C = 2 + r.Intn(3)
+		c.Items = c.C + r.Intn(6)
+		c.N, c.StopMode, c.Sched, c.Via, c.Inner = 1+r.Intn(2), false, "free", "builder", true
+		pFail = 0.3
 	case "fbhold": // the fallback of a failing item is still running while the other items are processed by the other workers
 		c.C = 2 + r.Intn(2)
 		c.Items = c.C + 1 + r.Intn(4)
